@@ -117,6 +117,8 @@ def gen_sel(rng, anchor, cfg, files_ok=True):
             op["end"] = None
     elif files_ok:
         op["use_files"] = rng.randrange(1, 1 << 16)
+        if rng.random() < 0.2:
+            op["empty_files"] = True           # an explicit selection that is empty (files=[]): nothing is selected
     if cfg.get("sat") and "use_files" not in op and rng.random() < 0.45:
         vs = rng.sample(SATS, rng.choice([1, 1, 2]))
         op["white" if rng.random() < 0.6 else "black"] = {"sat": vs}
